@@ -7,7 +7,7 @@ from props._hist import History, Fail, result_fail, std_replay
 PROP = "C20"
 LEVEL = "other"
 SELFTEST_PARTS = ("num",)
-WALL_BUDGET = {"quick": 900, "thorough": 5400}
+WALL_BUDGET = {"quick": 1200, "thorough": 9000}
 ACTIONS = ["remote-write", "remote-delete", "local-create", "local-edit", "request-path", "request-id", "unrequest", "listdir", "remote-mkdir", "remote-create-b",
            "unrequest-id", "remote-create-nested", "request-nested"]
 QUICK_ACTIONS = 10        # the generic quick families draw from the first ten; the last three are exercised by focused families
@@ -249,23 +249,26 @@ def jobs(tier):
     q = tier == "quick"
     out = []
     for f in (("oid",) if q else ("oid", "path")):
+        coarse = q or f == "path"          # coarse schedule: after each action nothing or one fair round
+        sm = {"slotmode": "round"} if coarse else {}
         for auto in (False, True):
             for a in ACTIONS:
-                p = {"flavour": f, "auto": auto, "nact": 3, "slots": 1, "first": a}
+                p = dict(sm, flavour=f, auto=auto, nact=3, slots=1, first=a)
                 if q:
-                    p["slotmode"] = "round"
                     p["pool"] = QUICK_ACTIONS
                     if ACTIONS.index(a) >= QUICK_ACTIONS:
                         continue
                 out.append({"harness": "smart", "params": p, "label": "%s/%s/3-actions/first=%s" % (f, "auto-b" if auto else "no-predicate", a)})
         # request / un-request / ... : re-request after un-request needs four actions
+        n = 4 if (q or f == "path") else 5
         for pre in (["request-path", "unrequest"], ["request-id", "unrequest"]):
-            out.append({"harness": "smart", "params": {"flavour": f, "auto": False, "nact": 4 if q else 5, "slots": 1, "slotmode": "round", "prefix": pre},
-                        "label": "%s/no-predicate/%d-actions/prefix=%s" % (f, 4 if q else 5, "+".join(pre))})
+            out.append({"harness": "smart", "params": {"flavour": f, "auto": False, "nact": n, "slots": 1, "slotmode": "round", "prefix": pre},
+                        "label": "%s/no-predicate/%d-actions/prefix=%s" % (f, n, "+".join(pre))})
         # nested remote file: the request has to bring the (possibly unsynced) parent folder first; un-request by id
+        n = 3 if (q or f == "path") else 4
         for pre in (["remote-create-nested"], ["request-path", "unrequest-id"]):
-            out.append({"harness": "smart", "params": {"flavour": f, "auto": False, "nact": 3 if q else 4, "slots": 1, "slotmode": "round" if q else None, "prefix": pre},
-                        "label": "%s/no-predicate/%d-actions/prefix=%s" % (f, 3 if q else 4, "+".join(pre))})
+            out.append({"harness": "smart", "params": {"flavour": f, "auto": False, "nact": n, "slots": 1, "slotmode": "round", "prefix": pre},
+                        "label": "%s/no-predicate/%d-actions/prefix=%s" % (f, n, "+".join(pre))})
     return out
 
 
